@@ -93,3 +93,44 @@ package scanner
 //@   ensures normal && !isNewLine(c) && c != '/' && !((s.annotation == annotationNone || s.annotation == annotationInline) && c == '#') && !isBlank(c) && s.lengthComputing && len(s.stack.vals) == 0
 //@           ==> len(s.finds) == old(len(s.finds)) + 1 && s.finds[old(len(s.finds))] == lexeme.EndTop
 //@   ensures !isNewLine(c) && c != '/' && !((s.annotation == annotationNone || s.annotation == annotationInline) && c == '#') && !isBlank(c) && !s.lengthComputing && s.annotation == annotationNone ==> panics
+
+// ---- C13: spelling-independent steps of the annotation sub-scanner ----
+//@ func (*Scanner).isInsideMultiLineAnnotation()
+//@   props C13
+//@   requires s != nil && s.stack != nil
+//@   nopanic
+//@   pure
+//@   loop 0 invariant -1 <= i && i < len(s.stack.vals)
+//@   loop 0 decreases i + 1
+
+// the rest of a line after an inline annotation closed by '#': every kind of line
+// end (LF and CR) ends it; nothing else does
+//@ func stateInlineAnnotationTextSkip(s, c)
+//@   props C13
+//@   requires s != nil && s.returnToStep != nil && s.stack != nil
+//@   maypanic
+//@   modifies s.step, s.returnToStep.vals, s.finds, s.finds[*], s.annotation
+//@   ensures !isNewLine(c) ==> normal && len(s.finds) == old(len(s.finds)) && s.step == old(s.step) && s.annotation == old(s.annotation) && len(s.returnToStep.vals) == old(len(s.returnToStep.vals))
+//@   ensures normal && isNewLine(c) ==> len(s.finds) == old(len(s.finds)) + 1 && s.finds[old(len(s.finds))] == lexeme.NewLine && len(s.returnToStep.vals) == old(len(s.returnToStep.vals)) - 1
+//@   ensures isNewLine(c) ==> (panics <==> old(len(s.returnToStep.vals)) == 0)
+
+// after '{': an annotation may follow an opening brace - also when the object is empty
+//@ func stateFoundObjectEnd(s)
+//@   props C13
+//@   requires s != nil && s.stack != nil && s.prevContextsStack != nil
+//@   maypanic
+//@   modifies s.step, s.finds, s.finds[*], s.context.Type, s.context.ArrayHasItem, s.prevContextsStack.vals
+//@ func stateBeginString(s, c)
+//@   props C13
+//@   requires s != nil && 1 <= s.index && s.index <= len(s.data)
+//@   maypanic
+//@   modifies s.step
+//@   ensures panics <==> c != '"'
+//@ func stateBeginKeyOrEmpty(s, c)
+//@   props C13
+//@   requires s != nil && s.stack != nil && s.prevContextsStack != nil && 1 <= s.index && s.index <= len(s.data)
+//@   maypanic
+//@   modifies s.step, s.finds, s.finds[*], s.context.Type, s.context.ArrayHasItem, s.prevContextsStack.vals, s.allowAnnotation
+//@   ensures normal && s.annotation == annotationNone ==> s.allowAnnotation
+//@   ensures normal && s.annotation != annotationNone ==> s.allowAnnotation == old(s.allowAnnotation)
+//@   ensures normal && c != '}' ==> len(s.finds) == old(len(s.finds)) + 1 && s.finds[old(len(s.finds))] == lexeme.ObjectKeyBegin
